@@ -1,167 +1,96 @@
-(* C03 - stream reassembly versus the chunking of the byte stream.
+(* C03 - stream reassembly is independent of how the byte stream is chunked (round 9: full strength).
    Theorems only (proofs in AF.Lemmas.ReaderL, on top of AF.Lemmas.RoundTripL).
    Model: reader_loop / reader_step / reader_run of Fix/Codec.v (the body of socket_read_task between
-   two read() calls, folded over the reads; validated against asyncfix/connection.py).
+   two read() calls, folded over the reads) with the round-9 decoder (partial-marker tail kept, frame
+   candidate ends at its CheckSum field, completeness tested against len(raw) - valid_idx).
 
-   FULL STATEMENT (false of the code today, see the *_refuted theorems below):
-     forall fms chunks, Forall (encoder_frame G bs) fms -> concat chunks = concat (map fst fms) ->
-       reader_run G bs [] chunks = ([], map delivered fms, map (fun _ => 0) chunks).
-   PROVED: the same with the extra hypothesis no_cut_inside_marker (negation of known finding D6: no
-   read ends 1-5 bytes into a frame), unbounded in the number of frames and of reads.
-
-   encoder_frame G bs (F, dm) - F is an encoder frame under the hypotheses of C01_roundtrip and dm is the
-                                message the decoder returns for it (decoded_of ...).
+   encoder_frame G bs (F, dm) - F is an encoder frame under the hypotheses of C01_roundtrip (wf_msg,
+                                no_marker = negation of D5, small_frame) and dm is its decoded message.
+   enc_seg G bs (J, (F, dm))  - such a frame preceded by junk J with no occurrence of "8=FIX." (J may be empty,
+                                may end in a proper prefix of the marker, may contain SOH, "10=", anything else).
+   stream_of segs tail        - J1 ++ F1 ++ J2 ++ F2 ++ ... ++ Jn ++ Fn ++ tail.
    delivered (F, dm)          - (dm, F): what the reader hands to _process_message.
-   status 0                   - the read ended in "wait for more bytes" (no exception, no fuel exhaustion). *)
+   status 0                   - the read ended in "wait for more bytes" (no exception, no fuel exhaustion).
+   No hypothesis on the chunking: cuts inside the marker, inside BodyLength, inside CheckSum, inside the
+   junk, one-byte reads, empty reads.  The former class hypotheses (no_cut_inside_marker, junk only in
+   junk-only reads at frame boundaries, |junk| + |prefix| < |frame|) are gone. *)
 From Coq Require Import ZArith NArith List Bool.
 From AF Require Import Base.Sx Py.Str Fix.Codec Fix.WfMsg Lemmas.RoundTripL Lemmas.ReaderL.
 From AFGen Require Import GenGroups.
 Import ListNotations.
 Open Scope N_scope.
 
-(* complete-prefix lemma: a frame followed by nothing, or by bytes that begin with a whole frame-start
-   marker, decodes to its message and exactly the frame is consumed *)
-Theorem C03_complete_prefix : forall G bs fm P silent, wf_table G = true -> encoder_frame G bs fm ->
-  P = [] \/ prefixb MARK P = true ->
-  decode G bs (fst fm ++ P) silent = Ok (Some (snd fm), zlen (fst fm), Some (fst fm)).
+(* deliver lemma: marker-free junk, a frame, then ANY bytes (nothing, garbage, part of the next frame):
+   the frame is decoded to its message and exactly junk + frame are consumed *)
+Theorem C03_complete_prefix : forall G bs J fm R silent, wf_table G = true -> no_mark J -> encoder_frame G bs fm ->
+  decode G bs (J ++ fst fm ++ R) silent = Ok (Some (snd fm), (zlen J + zlen (fst fm))%Z, Some (fst fm)).
 Proof. exact complete_prefix. Qed.
 Print Assumptions C03_complete_prefix.
 
-(* wait lemma: every proper prefix of a frame that is at least 6 bytes long (wherever it ends: inside
-   BodyLength, right after it, inside a value, inside CheckSum) is left in the buffer untouched *)
-Theorem C03_wait : forall G bs fm P Q, wf_table G = true -> encoder_frame G bs fm ->
-  fst fm = P ++ Q -> Q <> [] -> (6 <= length P)%nat ->
-  decode G bs P true = Ok (None, 0%Z, None).
+(* wait lemma: marker-free junk and ANY proper prefix P of a frame: no byte of the frame is consumed.
+   |P| >= 1: exactly the junk is consumed; P empty: all of the junk but a trailing proper marker prefix *)
+Theorem C03_wait : forall G bs J fm P Q, wf_table G = true -> no_mark J -> encoder_frame G bs fm ->
+  fst fm = P ++ Q -> Q <> [] ->
+  ((6 <= length P)%nat -> decode G bs (J ++ P) true = Ok (None, zlen J, None))
+  /\ ((1 <= length P <= 5)%nat -> decode G bs (J ++ P) true = Ok (None, zlen J, None))
+  /\ (P = [] -> exists k, (k <= 5)%nat /\ decode G bs J true = Ok (None, (zlen J - Z.of_nat k)%Z, None)
+                 /\ exists pre, J = pre ++ firstn k MARK).
 Proof. exact wait_for_more. Qed.
 Print Assumptions C03_wait.
 
-(* any grouping of whole frames into reads: every frame is delivered, in order, the buffer ends empty *)
-Theorem C03_whole_frames : forall G bs (groups : list (list (str * message))),
-  wf_table G = true -> Forall (Forall (encoder_frame G bs)) groups ->
-  reader_run G bs [] (map (fun g => concat (map fst g)) groups)
-  = ([], map delivered (concat groups), map (fun _ => 0) groups).
-Proof. exact whole_frames_enc. Qed.
-Print Assumptions C03_whole_frames.
+(* THE PROPERTY: for every stream of valid frames with marker-free junk before, between and after them,
+   and EVERY partition of the stream into reads, the reader hands over exactly the frames, in order,
+   never raises, and what stays in the buffer is a proper prefix of the marker (0..5 bytes) that ends
+   the trailing junk *)
+Theorem C03_chunk_independent : forall G bs segs tail chunks,
+  wf_table G = true -> Forall (enc_seg G bs) segs -> no_mark tail ->
+  concat chunks = stream_of segs tail ->
+  exists resid,
+    reader_run G bs [] chunks = (resid, map delivered (map snd segs), map (fun _ => 0) chunks)
+    /\ marker_prefix resid /\ exists pre, tail = pre ++ resid.
+Proof. exact chunk_independent. Qed.
+Print Assumptions C03_chunk_independent.
 
-(* every chunking whose cuts lie at frame boundaries or at least 6 bytes into a frame gives the result
-   of the unchunked stream: all frames, in order, empty buffer, no exception *)
-Theorem C03_chunk_independent_partial : forall G bs fms chunks,
-  wf_table G = true -> Forall (encoder_frame G bs) fms ->
-  concat chunks = concat (map fst fms) ->
-  no_cut_inside_marker (map fst fms) chunks = true ->
-  reader_run G bs [] chunks = ([], map delivered fms, map (fun _ => 0) chunks)
-  /\ reader_run G bs [] [concat (map fst fms)] = ([], map delivered fms, [0]).
-Proof. exact chunk_independent_enc. Qed.
-Print Assumptions C03_chunk_independent_partial.
+(* no junk: the buffer ends empty *)
+Theorem C03_chunk_independent_frames : forall G bs fms chunks,
+  wf_table G = true -> Forall (encoder_frame G bs) fms -> concat chunks = concat (map fst fms) ->
+  reader_run G bs [] chunks = ([], map delivered fms, map (fun _ => 0) chunks).
+Proof. exact chunk_independent_frames. Qed.
+Print Assumptions C03_chunk_independent_frames.
 
-(* non-vacuity: two encoder frames cut inside BodyLength, inside a value, inside CheckSum and exactly
-   6 bytes into the second frame *)
+(* non-vacuity: "xyz" FA "x8=FI" FB "zz8=" satisfies the hypotheses; in one-byte reads and in two reads cut
+   3 bytes into FB both frames are delivered and "8=" stays *)
 Theorem C03_nonvacuous :
-  let chunks := [firstn 11 ex_FA; firstn 30 (skipn 11 ex_FA); firstn 43 (skipn 41 ex_FA);
-                 skipn 84 ex_FA ++ firstn 6 ex_FB; skipn 6 ex_FB] in
-  concat chunks = concat (map fst ex_stream)
-  /\ no_cut_inside_marker (map fst ex_stream) chunks = true
-  /\ reader_run GenGroups.table beginstring [] chunks
-     = ([], [(ex_dA, ex_FA); (ex_dB, ex_FB)], [0; 0; 0; 0; 0]).
-Proof. exact chunks_nonvacuous. Qed.
+  (Forall (enc_seg GenGroups.table beginstring) ex_segs /\ no_mark ex_tail)
+  /\ reader_run GenGroups.table beginstring [] (map (fun c => [c]) (stream_of ex_segs ex_tail))
+     = ([56; 61], ex_both, map (fun _ => 0) (stream_of ex_segs ex_tail))
+  /\ reader_run GenGroups.table beginstring []
+       [ex_garbage ++ ex_FA ++ ex_junk2 ++ firstn 3 ex_FB; skipn 3 ex_FB ++ ex_tail] = ([56; 61], ex_both, [0; 0]).
+Proof. exact (conj ex_segs_encoder ex_run_junk). Qed.
 Print Assumptions C03_nonvacuous.
 
-(* D6: a read ending k = 1..5 bytes into the next frame loses the PRECEDING complete frame (both frames
-   for k = 1); when the preceding frame was delivered by an earlier read, the frame that was cut is lost *)
-Theorem C03_cut_in_marker_refuted : forall k, In k [1; 2; 3; 4; 5]%nat ->
-  let chunks1 := [ex_FA ++ firstn k ex_FB; skipn k ex_FB] in
-  let chunks2 := [ex_FA; firstn k ex_FB; skipn k ex_FB] in
-  Forall (encoder_frame GenGroups.table beginstring) ex_stream
-  /\ concat chunks1 = concat (map fst ex_stream) /\ concat chunks2 = concat (map fst ex_stream)
-  /\ no_cut_inside_marker (map fst ex_stream) chunks1 = false
-  /\ no_cut_inside_marker (map fst ex_stream) chunks2 = false
-  /\ reader_run GenGroups.table beginstring [] chunks1
-     = ([], if Nat.eqb k 1 then [] else [(ex_dB, ex_FB)], [0; 0])
-  /\ reader_run GenGroups.table beginstring [] chunks2 = ([], [(ex_dA, ex_FA)], [0; 0; 0])
-  /\ reader_run GenGroups.table beginstring [] [concat (map fst ex_stream)]
-     = ([], [(ex_dA, ex_FA); (ex_dB, ex_FB)], [0]).
-Proof. exact cut_in_marker_refuted. Qed.
-Print Assumptions C03_cut_in_marker_refuted.
+(* the former refuted witnesses, now positive (classes D6-cut-in-marker, D6-garbage-after-frame,
+   one-byte reads, D8-junk-prefix-counted-in-length: fixed by R9a, R9b, R9c) *)
+Theorem C03_cut_in_marker_ok : forall k, In k [1; 2; 3; 4; 5]%nat ->
+  reader_run GenGroups.table beginstring [] [ex_FA ++ firstn k ex_FB; skipn k ex_FB] = ([], ex_both, [0; 0])
+  /\ reader_run GenGroups.table beginstring [] [ex_FA; firstn k ex_FB; skipn k ex_FB] = ([], ex_both, [0; 0; 0]).
+Proof. exact cut_in_marker_ok. Qed.
+Print Assumptions C03_cut_in_marker_ok.
 
-(* D6: marker-free bytes after a frame, arriving in the same read, destroy that frame *)
-Theorem C03_garbage_refuted :
-  find_sub MARK ex_garbage = None
-  /\ reader_run GenGroups.table beginstring [] [ex_FA ++ ex_garbage; ex_FB] = ([], [(ex_dB, ex_FB)], [0; 0])
-  /\ reader_run GenGroups.table beginstring [] [ex_FA; ex_FB] = ([], [(ex_dA, ex_FA); (ex_dB, ex_FB)], [0; 0]).
-Proof. exact garbage_refuted. Qed.
-Print Assumptions C03_garbage_refuted.
+Theorem C03_garbage_ok :
+  reader_run GenGroups.table beginstring [] [ex_FA ++ ex_garbage; ex_FB] = ([], ex_both, [0; 0])
+  /\ reader_run GenGroups.table beginstring [] [ex_FA ++ ex_garbage ++ ex_FB] = ([], ex_both, [0]).
+Proof. exact garbage_ok. Qed.
+Print Assumptions C03_garbage_ok.
 
-(* D6: one-byte reads deliver nothing *)
-Theorem C03_one_byte_reads_refuted :
-  let chunks := map (fun c => [c]) ex_FA in
-  concat chunks = ex_FA
-  /\ reader_run GenGroups.table beginstring [] chunks = ([], [], map (fun _ => 0) chunks)
-  /\ reader_run GenGroups.table beginstring [] [ex_FA] = ([], [(ex_dA, ex_FA)], [0]).
-Proof. exact one_byte_reads_refuted. Qed.
-Print Assumptions C03_one_byte_reads_refuted.
+Theorem C03_one_byte_reads_ok :
+  reader_run GenGroups.table beginstring [] (map (fun c => [c]) (ex_FA ++ ex_FB))
+  = ([], ex_both, map (fun _ => 0) (ex_FA ++ ex_FB)).
+Proof. exact one_byte_reads_ok. Qed.
+Print Assumptions C03_one_byte_reads_ok.
 
-(* ---- last clause of C03: marker-free bytes between frames ----
-   FULL STATEMENT (false of the code: C03_garbage_refuted, C03_junk_prefix_cut_refuted): marker-free bytes
-   anywhere between two frames are skipped and no adjacent frame is lost.  PROVED: the three statements below. *)
-
-(* (1) reads made only of marker-free bytes that arrive at a frame boundary with an empty buffer are
-   consumed entirely and change nothing.  The stream is cut at arbitrary frame boundaries into blocks;
-   enc_block_ok: the frames of a block are encoder frames, the chunks of the block are a chunking of exactly
-   these frames with no_cut_inside_marker, and the junk reads after the block contain no "8=FIX.".
-   No further condition on the junk: it may be empty, may end in a proper prefix of the marker. *)
-Theorem C03_junk_reads_skipped : forall G bs (blocks : list block),
-  wf_table G = true -> Forall (enc_block_ok G bs) blocks ->
-  reader_run G bs [] (concat (map block_reads blocks))
-  = ([], map delivered (concat (map block_frames blocks)), map (fun _ => 0) (concat (map block_reads blocks))).
-Proof. exact junk_reads_skipped_enc. Qed.
-Print Assumptions C03_junk_reads_skipped.
-
-(* (2) one read (on any buffer) whose buffer content is  J ++ whole frames ++ P  with J marker-free:
-   - at least one whole frame: J is skipped with the first frame (consumed = |J| + |frame|), all frames are
-     delivered, P (nothing, or >= 6 bytes of an incomplete frame) stays in the buffer;
-   - no whole frame: J is dropped and P waits, exactly when  |J| + |P| < |frame of P|  (or P is empty). *)
-Theorem C03_junk_prefix_same_read : forall G bs buf chunk J fms P,
-  wf_table G = true -> find_sub MARK J = None -> Forall (encoder_frame G bs) fms ->
-  enc_junk_tail_ok G bs J fms P -> buf ++ chunk = J ++ concat (map fst fms) ++ P ->
-  reader_step G bs buf chunk = (P, map delivered fms, 0).
-Proof. exact junk_prefix_same_read_enc. Qed.
-Print Assumptions C03_junk_prefix_same_read.
-
-(* ... and for whole runs: every read is marker-free junk (possibly empty) followed by whole frames
-   (possibly none) *)
-Theorem C03_junk_prefix_whole_frames : forall G bs (groups : list (str * list (str * message))),
-  wf_table G = true ->
-  Forall (fun g => find_sub MARK (fst g) = None /\ Forall (encoder_frame G bs) (snd g)) groups ->
-  reader_run G bs [] (map (fun g => fst g ++ concat (map fst (snd g))) groups)
-  = ([], map delivered (concat (map snd groups)), map (fun _ => 0) groups).
-Proof. exact junk_prefix_whole_frames_enc. Qed.
-Print Assumptions C03_junk_prefix_whole_frames.
-
-Theorem C03_junk_nonvacuous :
-  let j2 : str := [120; 56; 61; 70; 73] in
-  find_sub MARK j2 = None
-  /\ reader_run GenGroups.table beginstring []
-       (concat (map block_reads
-          [([], [], [ex_garbage; j2]);
-           ([(ex_FA, ex_dA)], [firstn 11 ex_FA; skipn 11 ex_FA], [j2]);
-           ([(ex_FB, ex_dB)], [ex_FB], [ex_garbage; ex_garbage])]))
-     = ([], [(ex_dA, ex_FA); (ex_dB, ex_FB)], [0; 0; 0; 0; 0; 0; 0; 0])
-  /\ reader_step GenGroups.table beginstring [] (j2 ++ ex_FA ++ ex_FB ++ firstn 10 ex_FA)
-     = (firstn 10 ex_FA, [(ex_dA, ex_FA); (ex_dB, ex_FB)], 0)
-  /\ reader_step GenGroups.table beginstring [] (ex_garbage ++ firstn 83 ex_FA) = (firstn 83 ex_FA, [], 0).
-Proof. exact junk_nonvacuous. Qed.
-Print Assumptions C03_junk_nonvacuous.
-
-(* (3) D8-junk-prefix-counted-in-length: junk J (3 bytes) in front of a frame cut k bytes before its end,
-   2 <= k <= |J|: the frame is lost; k = |J| + 1 waits correctly; whole frames behind junk are fine *)
-Theorem C03_junk_prefix_cut_refuted : forall k, In k [2; 3]%nat ->
-  find_sub MARK ex_garbage = None /\ length ex_garbage = 3%nat /\ length ex_FA = 87%nat
-  /\ reader_run GenGroups.table beginstring []
-       [ex_garbage ++ firstn (87 - k) ex_FA; skipn (87 - k) ex_FA ++ ex_FB] = ([], [(ex_dB, ex_FB)], [0; 0])
-  /\ reader_run GenGroups.table beginstring []
-       [ex_garbage ++ firstn (87 - 4) ex_FA; skipn (87 - 4) ex_FA ++ ex_FB]
-     = ([], [(ex_dA, ex_FA); (ex_dB, ex_FB)], [0; 0])
-  /\ reader_run GenGroups.table beginstring [] [ex_garbage ++ ex_FA ++ ex_FB]
-     = ([], [(ex_dA, ex_FA); (ex_dB, ex_FB)], [0]).
-Proof. exact junk_prefix_cut_refuted. Qed.
-Print Assumptions C03_junk_prefix_cut_refuted.
+Theorem C03_junk_prefix_cut_ok : forall k, In k [1; 2; 3; 4; 5]%nat ->
+  reader_run GenGroups.table beginstring []
+    [ex_garbage ++ firstn (87 - k) ex_FA; skipn (87 - k) ex_FA ++ ex_FB] = ([], ex_both, [0; 0]).
+Proof. exact junk_prefix_cut_ok. Qed.
+Print Assumptions C03_junk_prefix_cut_ok.
